@@ -63,6 +63,23 @@ def doubling_chain(chk, th):
     return n
 
 
+def hidden_name(chk, th):
+    """the hidden standard-macro file is not a supplied file: an include of its name, or its name as main file, names an absent
+    file like any other when the caller did not supply it"""
+    cases = [("c15:hidden:include", {"files": {"m": 'include "__standards__"\nx0 := x0 + 1\n'}, "main": "m"}),
+             ("c15:hidden:main", {"files": {}, "main": "__standards__"}),
+             ("c15:hidden:control", {"files": {"m": 'include "__standard__"\nx0 := x0 + 1\n'}, "main": "m"})]
+    recs, rc, err = run_th(th, ["compile"], [dict(c, i=i) for i, (_, c) in enumerate(cases)], timeout=120)
+    got = {x["i"]: x for x in recs if "ok" in x}
+    for i, (key, c) in enumerate(cases):
+        x = got.get(i)
+        want = "__standard__" if key.endswith("control") else "__standards__"
+        if x is None or x["ok"] or want not in x["requests"]:
+            chk.violation(key, "the caller did not supply a file named %r, yet compile(%s) returns ok=%s, requests %s: an absent file must be "
+                          "reported and requested" % (want, json.dumps(c), x and x["ok"], x and x["requests"]), {"input": c, "result": x})
+    return len(cases)
+
+
 def run(chk):
     th = build("plain")
     tha = build("asan")
@@ -117,6 +134,7 @@ def run(chk):
     chk.tlc_stats(resg)
     n += lexinc.compare_include(chk, tha, resg.cases, "c15:random", compile_th=tha, compile_every=4)
     chk.add("doubling_include_chains", doubling_chain(chk, th))
+    chk.add("hidden_file_name_cases", hidden_name(chk, th))
     chk.cov["traces_validated_against_impl"] = n
     chk.cov["include_graphs_exhaustive"] = ncases
     chk.cov["include_graphs_random"] = len(resg.cases)
